@@ -8,7 +8,7 @@ from sa.kernels import KernelFacts, kernel_name, GRIDS, EXTENTS, AXLETTER
 from sa.stencil import c_loop_updates, shift_atoms
 from sa.extract import single_assignments, inline, names_in
 from sa.srcmodel import own_nodes, dotted, positional_params, func_params, bind_call
-from sa.report import AnalysisError
+from sa.report import AnalysisError, Report
 from rules import c02
 
 EXPLANATION = (
@@ -240,7 +240,7 @@ def run(rep, prog, tier):
         okw = False
     rep.ob('R-ALG', 'dfactor vs trapezoid weights', okw, '1/dfactor_j = (dx_{j-1}+dx_j)/2 inside, dx_0/2 and dx_{N-2}/2 at the ends', shared, cprog.func('compute_dfactor').line,
            what='1/dfactor_j is the trapezoid weight of node j')
-    sub0 = type(rep)(rep.pid, rep.tier)
+    sub0 = Report("sub", rep.tier)
     c02.run_shared(sub0, prog, cprog)
     for o in sub0.obls:
         if o.construct in ('Python _compute_dfactor', 'C compute_dfactor', 'C compute_dx', 'C compute_xInt'):
@@ -259,7 +259,7 @@ def run(rep, prog, tier):
             KernelFacts(cfk, D, k, ob).check()
     rep.floor('R-TPL(kernel)', 120)
     # Python drivers: boundary additions and sweep guards (shared with C02's driver rules)
-    sub = type(rep)(rep.pid, rep.tier)
+    sub = Report("sub", rep.tier)
     c02.run_drivers(sub, prog)
     for o in sub.obls:
         if o.rule in ('R-DOM', 'R-TPL(driver)') or (o.rule == 'R-IDX' and ('inject' in o.construct or 'sweep' in o.construct)):
